@@ -492,8 +492,8 @@ fn sv(v: &[&str]) -> Vec<String> {
 
 pub fn families(tier: Tier) -> Vec<Box<dyn Family>> {
     let th = tier.thorough();
-    let f64_tokens = sv(&["(", ")", ",", "{", "}", "{y}", "x", "1", ".", "+", "-", "*", "max", "sin", "PI", "§", "\u{1}", "e"]);
-    let val_tokens = sv(&["(", ")", ",", "1", "2.5", "true", "x", "[1,2]", "-", "%", "==", "if", "else", "to_int", "fact", ".", "<<", "2147483647", "^", "/"]);
+    let f64_tokens = sv(&["(", ")", ",", "{", "}", "{y}", "x", "1", ".", "+", "-", "*", "max", "sin", "PI", "§", "\u{1}", "e", "="]);
+    let val_tokens = sv(&["(", ")", ",", "1", "2.5", "true", "x", "[1,2]", "-", "%", "==", "if", "else", "to_int", "fact", ".", "<<", "2147483647", "^", "/", "="]);
     let mut v: Vec<Box<dyn Family>> = Vec::new();
     let lf = if th { 6 } else { 5 };
     v.push(Box::new(Strings { name: format!("f64 token strings <= {lf}, blank separated"), val: false, tokens: f64_tokens.clone(), sep: " ", space: StringSpace::new(f64_tokens.len(), lf) }));
